@@ -9,7 +9,7 @@ use cw2::{get_contract_version, set_contract_version};
 use protobuf::Message;
 use semver::Version;
 
-use white_whale_std::pool_network::asset::{AssetInfoRaw, PairInfoRaw};
+use white_whale_std::pool_network::asset::{AssetInfoRaw, PairInfoRaw, PairType};
 use white_whale_std::pool_network::pair::{
     Config, ExecuteMsg, FeatureToggle, InstantiateMsg, MigrateMsg, QueryMsg,
 };
@@ -25,6 +25,9 @@ use crate::{commands, helpers, queries};
 // version info for migration info
 const CONTRACT_NAME: &str = "white_whale-pool";
 const CONTRACT_VERSION: &str = env!("CARGO_PKG_VERSION");
+/// Bounds of the stableswap amplification factor, the same as the 3pool's
+pub const MIN_AMP: u64 = 1;
+pub const MAX_AMP: u64 = 1_000_000;
 
 pub const INSTANTIATE_REPLY_ID: u64 = 1;
 
@@ -68,6 +71,15 @@ pub fn instantiate(
 
     // check the fees are valid
     msg.pool_fees.is_valid()?;
+
+    // a stableswap pair keeps its amplification for good: it has to be within the range the curve is defined for
+    if let PairType::StableSwap { amp } = &msg.pair_type {
+        if *amp < MIN_AMP || *amp > MAX_AMP {
+            return Err(ContractError::Std(StdError::generic_err(format!(
+                "Amplification must be between {MIN_AMP} and {MAX_AMP}"
+            ))));
+        }
+    }
 
     #[cfg(not(feature = "osmosis"))]
     let config = Config {
